@@ -99,6 +99,20 @@ func objFill(name string, seed uint64) meta.Object {
 }
 
 func init() {
+	// ofill <name> <seed>: like rand1 of ops_tl1.go (FillRandom, written TL1 boxed) but with the draw budget and the
+	// watchdog, so that the types whose FillRandom does not terminate (F7) cost a panic line, not minutes
+	ops["ofill"] = func(f []string) string {
+		seed, _ := strconv.ParseUint(f[2], 10, 64)
+		obj := objFill(f[1], seed)
+		if obj == nil {
+			return "driver-error no object " + f[1]
+		}
+		w, err := obj.WriteTL1BoxedGeneral(nil)
+		if err != nil {
+			return "writeerr"
+		}
+		return "ok " + hx(w)
+	}
 	// orand <name> <seed>: FillRandom from the scripted source, then every writer.
 	// result: ok <tl1 boxed hex> j=<ok|err|rt-reject|rt-diff> t2=<ok|na|panic|rt-reject|rt-diff> rep=<same|diff>
 	//   j / t2: the writer accepted the value, and what it wrote reads back into a fresh object with the same TL1 bytes
@@ -142,6 +156,48 @@ func init() {
 	}
 }
 
+// ---------------------------------------------------------------------------------------- C12
+func init() {
+	// oconv2 <name> <tl1 boxed hex>: the value in TL2 (through the generated code) -> ok <hex> | reject | na
+	ops["oconv2"] = func(f []string) string {
+		obj := factory.CreateObjectFromName(f[1])
+		if obj == nil {
+			return "driver-error no object " + f[1]
+		}
+		if _, err := obj.ReadTL1Boxed(unhex(f[2])); err != nil {
+			return "reject"
+		}
+		w, st := objWriteTL2(obj, f[1])
+		if st != "ok" {
+			return st
+		}
+		return "ok " + hx(w)
+	}
+	// orw2 <name> <hex>: read TL2, then write back what was read -> ok <consumed> <hex> | reject | na
+	ops["orw2"] = func(f []string) string {
+		obj := factory.CreateObjectFromName(f[1])
+		if obj == nil {
+			return "driver-error no object " + f[1]
+		}
+		if !objHasTL2(f[1]) {
+			return "na"
+		}
+		in := unhex(f[2])
+		rest, err, has := objReadTL2(obj, in)
+		if !has {
+			return "na"
+		}
+		if err != nil {
+			return "reject"
+		}
+		w, st := objWriteTL2(obj, f[1])
+		if st != "ok" {
+			return "ok " + strconv.Itoa(len(in)-len(rest)) + " " + st
+		}
+		return "ok " + strconv.Itoa(len(in)-len(rest)) + " " + hx(w)
+	}
+}
+
 // ---------------------------------------------------------------------------------------- C09
 func objReset(obj meta.Object) bool {
 	m := reflect.ValueOf(obj).MethodByName("Reset")
@@ -152,26 +208,47 @@ func objReset(obj meta.Object) bool {
 	return true
 }
 
-// all writers of an object, as one comparable string
+// all writers of an object, as one comparable string (a panicking writer is recorded, not propagated)
 func objWriteAll(obj meta.Object, name string) string {
-	var sb strings.Builder
-	if w, err := obj.WriteTL1BoxedGeneral(nil); err != nil {
-		sb.WriteString("1:writeerr")
-	} else {
-		sb.WriteString("1:" + hx(w))
+	guard := func(tag string, f func() string) (out string) {
+		defer func() {
+			if r := recover(); r != nil {
+				out = tag + ":panic"
+			}
+		}()
+		return tag + ":" + f()
 	}
-	if j, err := objWriteJSON(obj); err != nil {
-		sb.WriteString(" j:writeerr")
-	} else {
-		sb.WriteString(" j:" + hx(j))
-	}
+	w1 := guard("1", func() string {
+		w, err := obj.WriteTL1BoxedGeneral(nil)
+		if err != nil {
+			return "writeerr"
+		}
+		return hx(w)
+	})
+	wj := guard("j", func() string {
+		j, err := objWriteJSON(obj)
+		if err != nil {
+			return "writeerr"
+		}
+		return hx(j)
+	})
 	w2, st := objWriteTL2(obj, name)
 	if st == "ok" {
-		sb.WriteString(" 2:" + hx(w2))
-	} else {
-		sb.WriteString(" 2:" + st)
+		st = hx(w2)
 	}
-	return sb.String()
+	return w1 + " " + wj + " 2:" + st
+}
+
+// objCmp compares the writers of the reused and of the fresh object
+func objCmp(a, b string, what string) string {
+	if a == b {
+		return "same"
+	}
+	fa, fb := strings.Fields(a), strings.Fields(b)
+	if len(fa) == 3 && len(fb) == 3 && fa[0] == fb[0] && fa[2] == fb[2] && fb[1] == "j:panic" {
+		return "DIFF:" + what + ":fresh-json-panic"
+	}
+	return "DIFF:" + what
 }
 
 // one decode step into obj; returns verdict ("ok <consumed>" | "eof" | "reject" | "na")
@@ -261,10 +338,7 @@ func init() {
 					continue
 				}
 				a, b := objWriteAll(obj, name), objWriteAll(fresh, name)
-				cmp := "same"
-				if a != b {
-					cmp = "DIFF:reset-write"
-				}
+				cmp := objCmp(a, b, "reset-write")
 				w1 := strings.TrimPrefix(strings.Fields(a)[0], "1:")
 				out = append(out, "R,"+w1+","+cmp)
 				continue
@@ -279,9 +353,7 @@ func init() {
 				cmp = "DIFF:verdict:" + strings.ReplaceAll(v2, " ", "_")
 			} else if strings.HasPrefix(v1, "ok") {
 				a, b := objWriteAll(obj, name), objWriteAll(fresh, name)
-				if a != b {
-					cmp = "DIFF:write"
-				}
+				cmp = objCmp(a, b, "write")
 				w1 = strings.TrimPrefix(strings.Fields(a)[0], "1:")
 			}
 			out = append(out, strings.ReplaceAll(v1, " ", "_")+","+w1+","+cmp)
